@@ -94,17 +94,18 @@ Proof. intros l n H Hn. unfold emit_comp in H. repeat (apply in_app_or in H; des
 Lemma step_prefix cs s cs' : step cs s = OK cs' -> c_prefix (fst cs') = c_prefix (fst cs).
 Proof. destruct cs as [c ctr]. destruct s; simpl.
   - destruct items as [|[ps| |] [|i2 items]]; simpl;
-      try (unfold add_super_sequence; destruct (is_anon name); [discriminate|]; destruct (seq_defined c name); [discriminate|];
+      try (unfold add_super_sequence; destruct (is_anon name); [discriminate|]; destruct (seq_defined c name); [discriminate|]; destruct (ahas (c_structs c) name); [discriminate|];
            destruct (clean_const c _) as [k|]; [|discriminate]; simpl;
            destruct (build_super c ctr k len) as [[[s a] ctr']|]; [|discriminate]; simpl; intros H; inversion H; reflexivity).
-    unfold add_sequence. destruct (is_anon name); [discriminate|]. destruct (seq_defined c name); [discriminate|].
+    unfold add_sequence. destruct (is_anon name); [discriminate|]. destruct (seq_defined c name); [discriminate|]. destruct (ahas (c_structs c) name); [discriminate|].
     destruct (Comp.Wild.get_length_const len ps); simpl; intros H; inversion H; reflexivity.
   - unfold add_strand. destruct (ahas (c_strands c) name); [discriminate|].
     destruct (clean_const c items) as [k|]; [|discriminate]. simpl.
     destruct (build_super c ctr k len) as [[[s a] ctr']|]; [|discriminate]. simpl.
     destruct (Nat.eqb (s_len s) 0); [discriminate|]. intros H. inversion H. reflexivity.
   - destruct (Comp.Struct.compile_snot s) as [s0|]; [|discriminate]. simpl. unfold add_structure.
-    destruct (ahas (c_structs c) name); [discriminate|]. destruct (find_strands c strands) as [ts|]; [|discriminate]. simpl.
+    destruct (ahas (c_structs c) name); [discriminate|]. destruct (is_anon name); [discriminate|]. destruct (seq_defined c name); [discriminate|].
+    destruct (find_strands c strands) as [ts|]; [|discriminate]. simpl.
     destruct (if domain then _ else _) as [s1|]; [|discriminate]. simpl.
     destruct (Comp.Struct.structure_ok s1 _); [|discriminate]. simpl. intros H. inversion H. reflexivity.
   - unfold add_kinetic. destruct (forallb _ ins && forallb _ outs); [|discriminate]. simpl. intros H. inversion H. reflexivity. Qed.
